@@ -157,6 +157,9 @@ func (dm *DagModifier) Write(b []byte) (int, error) {
 	}
 	if dm.wrBuf == nil {
 		dm.wrBuf = new(bytes.Buffer)
+		// A new pending write starts at the current offset (Read advances
+		// curWrOff without touching writeStart).
+		dm.writeStart = dm.curWrOff
 	}
 
 	n, err := dm.wrBuf.Write(b)
